@@ -33,10 +33,47 @@ def source_hash(mod):
         return hashlib.sha256(f.read()).hexdigest()[:16]
 
 
+_ACTIVE_MODEL = {}
+
+
+def _stub_map(path):
+    """names re-exported by a package (from its __init__.pyi lazy-loader stub or its __init__.py)."""
+    import re
+    out = {}
+    for fn in ('__init__.pyi', '__init__.py'):
+        f = os.path.join(path, fn)
+        if not os.path.exists(f):
+            continue
+        txt = open(f).read()
+        for m in re.finditer(r'^from \.(\w+) import \(?([^)\n]+(?:\n[^)\n]+)*?)\)?\s*(?:#.*)?$', txt, re.M):
+            for nm in re.split(r'[,\s]+', m.group(2)):
+                nm = nm.strip()
+                if nm and nm.isidentifier():
+                    out.setdefault(nm, m.group(1))
+    return out
+
+
 def _synthetic_pkg(name, path):
     m = types.ModuleType(name)
     m.__path__ = [path]
     m.__package__ = name
+    stub = _stub_map(path)
+
+    def __getattr__(attr):
+        if attr.startswith('__'):
+            raise AttributeError(attr)
+        sub = stub.get(attr)
+        if sub is not None:
+            with ModelScope(_ACTIVE_MODEL):
+                mod = importlib.import_module(f'{name}.{sub}')
+            return getattr(mod, attr)
+        if os.path.exists(os.path.join(path, attr + '.py')) or os.path.isdir(os.path.join(path, attr)):
+            with ModelScope(_ACTIVE_MODEL):
+                if os.path.isdir(os.path.join(path, attr)):
+                    return sys.modules.get(f'{name}.{attr}') or _synthetic_pkg(f'{name}.{attr}', os.path.join(path, attr))
+                return importlib.import_module(f'{name}.{attr}')
+        raise AttributeError(f'synthetic package {name} has no attribute {attr}')
+    m.__getattr__ = __getattr__
     sys.modules[name] = m
     return m
 
@@ -82,6 +119,8 @@ def load(mod, model_modules, real_init=(), preload=(), extra=None):
     real_init: sub-packages whose real __init__ must run (default: none; synthetic packages).
     """
     preload_real(preload)
+    _ACTIVE_MODEL.update(model_modules)
+    _ACTIVE_MODEL.update(extra or {})
     with ModelScope(model_modules, extra):
         if ALIAS not in sys.modules:
             _synthetic_pkg(ALIAS, SRC)
